@@ -108,6 +108,12 @@ NegBits(x, y) == /\ x.tag = "fin" /\ y.tag = "fin" /\ x.m = y.m /\ x.e = y.e /\ 
 FlipKind(k) == CASE k = "upper" -> "lower" [] k = "lower" -> "upper" [] OTHER -> "two"
 NearUlps(x, y, prec, ulps) == DyLe(DyAbs(DySub(x, y)), DyShift(DyMulInt(DyMax(DyAbs(x), DyAbs(y)), ulps), 1 - prec))
 
+\* the same on recorded floats; a bound that left the float range on either side (exp overflow of a geometric bound at an
+\* extreme level) cannot be compared
+NearUlpsF(f1, k, f2, prec, ulps) == (f1.tag # "fin" \/ f2.tag # "fin") \/ NearUlps(DyShift(FDy(f1), k), FDy(f2), prec, ulps)
+\* geometric bounds are exp of log-space bounds: an absolute error there is a relative error here, growing with |log2 bound|
+Log2Bound(g) == IF g.tag # "fin" \/ g.m = <<>> THEN 0 ELSE LET t == g.e + 15 * Len(g.m) IN (IF t < 0 THEN -t ELSE t) + 15
+ReorderUlps(e, f) == IF e.fl = "geo" THEN 64 * (2 + Log2Bound(f)) ELSE 64
 SameShape(o1, o2) == o1.tag = o2.tag /\ (o1.tag = "ok" => o1.iv.kind = o2.iv.kind)
 \* scaling by a power of two is exact for these (reciprocals of powers of two are exact as well)
 ExactFl(e) == e.fl \in {"arith", "paired", "unpaired", "harm"}
@@ -125,8 +131,8 @@ C16Failed(e, base) ==
                         /\ (o1.iv.kind # "upper" => ScaledBits(o1.iv.hi, o2.iv.hi, e.k))))}
            ELSE {c \in {"C16.scale_rounding"} :
                    ~(SameShape(o1, o2) /\ (o1.tag = "ok" =>
-                        /\ (o1.iv.kind # "lower" => NearUlps(DyShift(FDy(o1.iv.lo), e.k), FDy(o2.iv.lo), PrecOf(e), 1024 * (1 + e.k * e.k)))
-                        /\ (o1.iv.kind # "upper" => NearUlps(DyShift(FDy(o1.iv.hi), e.k), FDy(o2.iv.hi), PrecOf(e), 1024 * (1 + e.k * e.k)))))}
+                        /\ (o1.iv.kind # "lower" => NearUlpsF(o1.iv.lo, e.k, o2.iv.lo, PrecOf(e), 1024 * (1 + e.k * e.k)))
+                        /\ (o1.iv.kind # "upper" => NearUlpsF(o1.iv.hi, e.k, o2.iv.hi, PrecOf(e), 1024 * (1 + e.k * e.k)))))}
       [] e.role = "neg" ->
            {c \in {"C16.negation_mirrors"} :
               ~(o1.tag = o2.tag /\ (o1.tag = "ok" =>
@@ -148,8 +154,8 @@ C16Failed(e, base) ==
       [] e.role = "reorder" ->
            {c \in {"C16.reorder"} :
               ~(SameShape(o1, o2) /\ (o1.tag = "ok" =>
-                   /\ (o1.iv.kind # "lower" => NearUlps(FDy(o1.iv.lo), FDy(o2.iv.lo), PrecOf(e), 64))
-                   /\ (o1.iv.kind # "upper" => NearUlps(FDy(o1.iv.hi), FDy(o2.iv.hi), PrecOf(e), 64))))}
+                   /\ (o1.iv.kind # "lower" => NearUlpsF(o1.iv.lo, 0, o2.iv.lo, PrecOf(e), ReorderUlps(e, o1.iv.lo)))
+                   /\ (o1.iv.kind # "upper" => NearUlpsF(o1.iv.hi, 0, o2.iv.hi, PrecOf(e), ReorderUlps(e, o1.iv.hi)))))}
       [] OTHER -> {}
 
 C16Clauses(e, base) ==
